@@ -360,6 +360,8 @@ pub struct ExecTrace {
     /// a released worker burnt CPU for the whole watchdog window without reaching a yield point, finishing or
     /// blocking: it spins (busy-waits) on something nobody will change, since every other worker is parked
     pub spin: Option<String>,
+    /// a worker thread is still running after its execution was given up: the process should end
+    pub runaway: bool,
     pub inconclusive: Option<String>,
     pub preemptions: u32,
     pub blocked_events: u32,
@@ -427,6 +429,10 @@ pub fn run_baton(job: Job, strategy: Strategy, watchdog_ms: u64) -> ExecTrace {
     let start = std::time::Instant::now();
     let mut current: Option<usize> = None;
     let mut blocked = vec![false; n];
+    // workers that burn CPU without reaching a yield point, finishing or blocking (they wait actively for
+    // something): treated like workers blocked on a lock - not given the baton, free to arrive later
+    let mut spinning = vec![false; n];
+    const SPIN_CPU_MS: u64 = 1000;
     // PCT state
     let (mut prio, mut change_at): (Vec<u64>, Vec<usize>) = (vec![], vec![]);
     let mut rng = crate::util::Rng::new(match &strategy {
@@ -451,6 +457,15 @@ pub fn run_baton(job: Job, strategy: Strategy, watchdog_ms: u64) -> ExecTrace {
                     break;
                 }
                 polls += 1;
+                if polls % 256 == 0 {
+                    let tid = s.tid.load(Ordering::Acquire);
+                    if tid != 0 && thread_cpu_ms(tid).saturating_sub(cpu_at_release) >= SPIN_CPU_MS {
+                        spinning[c] = true;
+                        blocked[c] = true;
+                        trace.blocked_events += 1;
+                        break;
+                    }
+                }
                 if polls < 300 {
                     std::hint::spin_loop();
                     continue;
@@ -495,7 +510,41 @@ pub fn run_baton(job: Job, strategy: Strategy, watchdog_ms: u64) -> ExecTrace {
                     let used_ms = thread_cpu_ms(tid).saturating_sub(cpu_at_release);
                     let since_ms = released_at.elapsed().as_millis() as u64;
                     if tid != 0 && since_ms >= 5_000 && used_ms * 3 >= since_ms * 2 {
-                        trace.spin = Some(format!("worker {} used {} ms of CPU in the {} ms since it was released after {} without reaching a yield point, finishing or blocking", c, used_ms, since_ms, point_name(s.last_point.load(Ordering::Acquire))));
+                        // It may be waiting actively for something a worker does that the baton keeps parked at a
+                        // yield point - an interleaving the program cannot have on its own.  So everybody is
+                        // released first (no baton any more); only a thread that keeps burning CPU for another
+                        // eight seconds, until every other worker has finished or sleeps on a lock, is spinning on
+                        // something that nobody is going to change.
+                        g.mode.store(MODE_OFF, Ordering::SeqCst);
+                        for sl in g.slots.iter() {
+                            sl.go.store(true, Ordering::SeqCst);
+                        }
+                        let t1 = std::time::Instant::now();
+                        let cpu1 = thread_cpu_ms(tid);
+                        while t1.elapsed().as_millis() < 6_000 && !s.finished.load(Ordering::Acquire) {
+                            short_sleep(20_000);
+                        }
+                        if s.finished.load(Ordering::Acquire) {
+                            trace.inconclusive = Some(format!("worker {} was busy for {} ms without reaching a point, but came to an end once every worker was let go: execution discarded", c, since_ms));
+                        } else {
+                            // nothing moves any more?  (no worker passes a yield point or ticks the event clock for two
+                            // seconds: the others have finished, sleep on a lock, or spin themselves)
+                            let progress = |g: &Inner| -> u64 { (0..n).map(|i| g.slots[i].points_passed.load(Ordering::Relaxed)).sum::<u64>() + g.clock.load(Ordering::Relaxed) };
+                            let p0 = progress(&g);
+                            let t2 = std::time::Instant::now();
+                            while t2.elapsed().as_millis() < 2_000 && !s.finished.load(Ordering::Acquire) {
+                                short_sleep(20_000);
+                            }
+                            let p1 = progress(&g);
+                            let used2 = thread_cpu_ms(tid).saturating_sub(cpu1);
+                            let since2 = t1.elapsed().as_millis() as u64;
+                            if !s.finished.load(Ordering::Acquire) && used2 * 3 >= since2 * 2 && p1 == p0 {
+                                trace.spin = Some(format!("worker {} used {} ms of CPU in the {} ms since it was released after {} without reaching a yield point, finishing or blocking, and another {} ms of {} ms after every other worker had been let go; nothing has moved for the last two seconds", c, used_ms, since_ms, point_name(s.last_point.load(Ordering::Acquire)), used2, since2));
+                            } else {
+                                trace.inconclusive = Some(format!("worker {} has been busy for {} ms without reaching a point and is still running after every worker was let go, but the rule for a spin is not met (CPU {} of {} ms, progress {}): no verdict", c, since_ms + since2, used2, since2, p1 != p0));
+                                trace.runaway = !s.finished.load(Ordering::Acquire);
+                            }
+                        }
                     } else {
                         trace.inconclusive = Some(format!("watchdog: worker {} did not reach a point", c));
                     }
@@ -509,11 +558,17 @@ pub fn run_baton(job: Job, strategy: Strategy, watchdog_ms: u64) -> ExecTrace {
             let s = &g.slots[i];
             let mut futex_seen = 0u32;
             let mut polls = 0u32;
+            let cpu_settle0 = thread_cpu_ms(s.tid.load(Ordering::Acquire));
             loop {
-                if s.finished.load(Ordering::Acquire) || s.arrived.load(Ordering::Acquire) != 0 {
+                if s.finished.load(Ordering::Acquire) || s.arrived.load(Ordering::Acquire) != 0 || spinning[i] {
                     break;
                 }
                 polls += 1;
+                if polls % 256 == 0 && thread_cpu_ms(s.tid.load(Ordering::Acquire)).saturating_sub(cpu_settle0) >= SPIN_CPU_MS {
+                    spinning[i] = true;
+                    blocked[i] = true;
+                    break;
+                }
                 if polls < 200 {
                     std::hint::spin_loop();
                     continue;
@@ -546,6 +601,7 @@ pub fn run_baton(job: Job, strategy: Strategy, watchdog_ms: u64) -> ExecTrace {
             all_done = false;
             if s.arrived.load(Ordering::Acquire) != 0 {
                 blocked[i] = false;
+                spinning[i] = false;
                 let ws = s.wait_stage.load(Ordering::Acquire);
                 if ws == 0 || g.stage.load(Ordering::SeqCst) + 1 >= ws {
                     enabled.push(i);
@@ -572,8 +628,34 @@ pub fn run_baton(job: Job, strategy: Strategy, watchdog_ms: u64) -> ExecTrace {
             // nobody is at a point: either a previously blocked worker is on its way to one, or
             // every unfinished worker sits in the kernel waiting for a lock = deadlock
             let mut stuck_rounds = 0;
+            let mut quiet_since: Option<(std::time::Instant, Vec<u64>)> = None;
             loop {
                 short_sleep(200);
+                // every unfinished worker sleeps on a lock or spins, at least one spins, nobody is at a point: nobody
+                // is left who could change what the spinner waits for.  Five seconds of that, with the spinner on
+                // the CPU for two thirds of them, is a wait that does not end.
+                {
+                    let unfinished: Vec<usize> = (0..n).filter(|i| !g.slots[*i].finished.load(Ordering::Acquire)).collect();
+                    let nobody_at_a_point = unfinished.iter().all(|i| g.slots[*i].arrived.load(Ordering::Acquire) == 0);
+                    let all_stuck = unfinished.iter().all(|i| spinning[*i] || { let t = g.slots[*i].tid.load(Ordering::Acquire); t != 0 && tid_in_futex(t) });
+                    if !unfinished.is_empty() && nobody_at_a_point && all_stuck && unfinished.iter().any(|i| spinning[*i]) {
+                        let cpus: Vec<u64> = (0..n).map(|i| thread_cpu_ms(g.slots[i].tid.load(Ordering::Acquire))).collect();
+                        match &quiet_since {
+                            None => quiet_since = Some((std::time::Instant::now(), cpus)),
+                            Some((t, c0)) if t.elapsed().as_millis() >= 5_000 => {
+                                let since = t.elapsed().as_millis() as u64;
+                                if let Some(i) = unfinished.iter().find(|i| spinning[**i] && cpus[**i].saturating_sub(c0[**i]) * 3 >= since * 2) {
+                                    trace.spin = Some(format!("worker {} has been on the CPU for {} of the last {} ms after {} without reaching a yield point, finishing or blocking, while every other worker has finished or sleeps on a lock: nobody is left who could end its wait", i, cpus[*i].saturating_sub(c0[*i]), since, point_name(g.slots[*i].last_point.load(Ordering::Acquire))));
+                                    break 'outer;
+                                }
+                                quiet_since = None;
+                            }
+                            _ => {}
+                        }
+                    } else {
+                        quiet_since = None;
+                    }
+                }
                 let mut any_arrived = false;
                 let mut all_in_futex = true;
                 let mut any_unfinished = false;
@@ -664,7 +746,7 @@ pub fn run_baton(job: Job, strategy: Strategy, watchdog_ms: u64) -> ExecTrace {
     for s in g.slots.iter() {
         s.go.store(true, Ordering::SeqCst);
     }
-    if trace.deadlock.is_none() && trace.inconclusive.is_none() {
+    if trace.deadlock.is_none() && trace.inconclusive.is_none() && trace.spin.is_none() {
         for h in handles {
             let _ = h.join();
         }
@@ -734,6 +816,19 @@ pub fn run_free(job: Job, seed: u64, max_sleep_us: u64, watchdog_ms: u64) -> Res
         }
         last_progress = progress;
         if start.elapsed().as_millis() as u64 > watchdog_ms {
+            // still not finished after the (generous) limit: is somebody spinning while nothing moves?
+            let prog = |g: &Inner| -> u64 { (0..n).map(|i| g.slots[i].points_passed.load(Ordering::Relaxed)).sum::<u64>() + g.clock.load(Ordering::Relaxed) };
+            let p0 = prog(&g);
+            let cpu0: Vec<u64> = (0..n).map(|i| thread_cpu_ms(g.slots[i].tid.load(Ordering::Acquire))).collect();
+            let t2 = std::time::Instant::now();
+            while t2.elapsed().as_millis() < 3_000 {
+                short_sleep(20_000);
+            }
+            let since = t2.elapsed().as_millis() as u64;
+            let spinner = (0..n).find(|i| !g.slots[*i].finished.load(Ordering::Acquire) && thread_cpu_ms(g.slots[*i].tid.load(Ordering::Acquire)).saturating_sub(cpu0[*i]) * 3 >= since * 2);
+            if let (Some(i), true) = (spinner, prog(&g) == p0) {
+                break Err(format!("spin: worker {} has been on the CPU for the last {} ms after {} while no worker passed a yield point (free-running mode, {} ms after the start)", i, since, point_name(g.slots[i].last_point.load(Ordering::Acquire)), start.elapsed().as_millis()));
+            }
             break Ok(false);
         }
     };
